@@ -520,6 +520,9 @@ func (g *Gen) run(n int) {
 		g.newHistory(g.confLine())
 		switch g.profile {
 		case "upload", "evict":
+			if hi%60 == 7 && g.profile == "upload" {
+				g.emit("EXPIRY " + g.pick([]string{"40", "60"}) + " " + g.pick([]string{"dir", "mem"}) + " " + g.pick([]string{"cancel", "complete"}))
+			}
 			offs, recv := map[int]int{}, map[int]string{}
 			k := 8 + g.r.Intn(25)
 			for i := 0; i < k; i++ {
@@ -542,7 +545,8 @@ func (g *Gen) run(n int) {
 				g.rawStep()
 			}
 		case "isolation":
-			g.repos = []string{"r1", "r2", "r1/sub", "r1/sub/x", "r", "r1-", "blobs", "r1/blobs", "index.json", "a/oci-layout/b"}
+			g.repos = []string{"r1", "r2", "r1/sub", "r1/sub/x", "r", "r1-", "blobs", "r1/blobs", "index.json", "a/oci-layout/b",
+				"r1/blobs/x", "r1/blobs/sha256/" + strings.Repeat("ab", 32), "r1/index.json/y"}
 			offs, recv := map[int]int{}, map[int]string{}
 			k := 10 + g.r.Intn(30)
 			for i := 0; i < k; i++ {
